@@ -69,6 +69,11 @@ func (c *chunkReader) Read(p []byte) (int, error) {
 
 var errDisk = errors.New("simulated disk: write failed")
 
+// countWriter is a healthy sink that only counts.
+type countWriter struct{ n int }
+
+func (c *countWriter) Write(p []byte) (int, error) { c.n += len(p); return len(p), nil }
+
 // failWriter accepts bytes until `limit`, then fails.  partial=true makes the
 // failing write report the bytes it did accept (n>0 with an error), partial=false
 // reports 0 for the failing write.  limit<0 never fails.
